@@ -742,7 +742,25 @@ pub fn main() {
                 c.label_if(push_after_comment, "append-after-unterminated-comment");
                 let before = Model { secs: model.secs.clone() };
                 let outcome = apply_model(&mut model, &edit);
-                let api_miss = match apply_file(&mut file, &edit) {
+                // rename_section() leaves the lookup tree on the old name (known finding): a later remove of such a section
+                // panics inside remove_section_by_id() ("lookup cache still has name to be deleted" / "present"), other
+                // accessors may panic likewise. Only for edits aimed at a renamed (old or new) address without a reload in
+                // between the panic is attributed to that class; any other panic keeps its location signature.
+                let applied = if stale_rename {
+                    match std::panic::catch_unwind(std::panic::AssertUnwindSafe(|| apply_file(&mut file, &edit))) {
+                        Ok(r) => r,
+                        Err(_) => {
+                            f.add(
+                                "rename-section-stale-lookup",
+                                format!("step {step}: an edit addressed at a section that was renamed earlier (lookup tree still on the old name) panics\n{}", describe(&doc.text, &edits)),
+                            );
+                            break;
+                        }
+                    }
+                } else {
+                    apply_file(&mut file, &edit)
+                };
+                let api_miss = match applied {
                     Ok(miss) => miss,
                     Err(e) => {
                         // header/key validation errors are legitimate for some pool members; nothing may change then
